@@ -31,8 +31,11 @@ fn check_one<T: CompactEncoding + PartialEq + std::fmt::Debug>(what: &str, v: &T
     });
     match r { Ok(x) => x, Err(p) => Some(format!("{what}: panic: {p}")) }
 }
-const INTS: [u64; 11] = [0, 1, 252, 253, 65535, 65536, 0xffff_ffff, 0x1_0000_0000, (1 << 40) - 1, u64::MAX - 1, 7];
+const INTS: [u64; 14] = [0, 1, 252, 253, 65535, 65536, 0xffff_ffff, 0x1_0000_0000, (1 << 40) - 1, u64::MAX - 1, 7, u64::MAX, (1 << 63) - 1, (1 << 62) - 1];
 fn wire_case(a: u64, b: u64, vlen: usize, ns: &[(u64, u64, u8)], ns2: &[(u64, u64, u8)], slen: usize) -> Option<String> {
+    match guarded(|| wire_case_inner(a, b, vlen, ns, ns2, slen)) { Ok(r) => r, Err(p) => Some(format!("panic: {p}")) }
+}
+fn wire_case_inner(a: u64, b: u64, vlen: usize, ns: &[(u64, u64, u8)], ns2: &[(u64, u64, u8)], slen: usize) -> Option<String> {
     let value: Vec<u8> = (0..vlen).map(|i| i as u8).collect();
     let sig: Vec<u8> = (0..slen).map(|i| (i * 3) as u8).collect();
     let mut o = vec![]; varint(a, &mut o); varint(b, &mut o);
@@ -50,8 +53,8 @@ fn wire_case(a: u64, b: u64, vlen: usize, ns: &[(u64, u64, u8)], ns2: &[(u64, u6
     check_one("DataUpgrade", &DataUpgrade { start: a, length: b, nodes: mk_nodes(ns), additional_nodes: mk_nodes(ns2), signature: sig }, &o)
 }
 fn search_wire(rng: &mut Rng, budget: usize) -> Option<String> {
-    let mut cases: Vec<(u64, u64, usize, usize, usize, usize)> = vec![(0, 0, 0, 0, 0, 0), (253, 65536, 253, 1, 2, 64), (5, 6, 300, 8, 0, 1), (u64::MAX - 1, 252, 252, 0, 3, 0)];
-    for _ in 0..budget { cases.push((rng.pick(&INTS), rng.pick(&INTS), rng.pick(&[0usize, 1, 7, 252, 253, 254, 300]), rng.below(9) as usize, rng.below(4) as usize, rng.pick(&[0usize, 1, 64, 253]))); }
+    let mut cases: Vec<(u64, u64, usize, usize, usize, usize)> = vec![(0, 0, 0, 0, 0, 0), (253, 65536, 253, 1, 2, 64), (5, 6, 300, 8, 0, 1), (u64::MAX - 1, 252, 252, 0, 3, 0), (u64::MAX, u64::MAX, 1, 14, 3, 0)];
+    for _ in 0..budget { cases.push((rng.pick(&INTS), rng.pick(&INTS), rng.pick(&[0usize, 1, 7, 252, 253, 254, 300]), rng.below(15) as usize, rng.below(4) as usize, rng.pick(&[0usize, 1, 64, 253]))); }
     for c in cases {
         let ns: Vec<(u64, u64, u8)> = (0..c.3).map(|i| (INTS[(i + c.0 as usize % 5) % INTS.len()], INTS[(i * 3 + 1) % INTS.len()], i as u8 + 1)).collect();
         let ns2: Vec<(u64, u64, u8)> = (0..c.4).map(|i| (INTS[(i + 2) % INTS.len()], 9, 0x80 + i as u8)).collect();
